@@ -315,7 +315,7 @@ struct RegpHarness : Harness {
         if (p == "C06") { for (int k = 0; k < 12; ++k) { v.push_back("verdict_read_" + std::to_string(k)); v.push_back("verdict_write_" + std::to_string(k)); }
             for (const char *s : {"read_of_64k_octets_or_more", "pipelined_3_or_more", "sequence_wrap", "word_size_mismatch", "response_ignored", "meta_ignored", "mem8", "mem16", "serial", "tcp", "zero_block_size", "request_from_real_client", "register_table_verdict_mapped", "reception_failure_inside_session", "block_recycled_with_stale_content", "reply_received_and_ignored_by_client", "read_at_or_near_capacity"}) v.push_back(s); }
         else if (p == "C07") for (const char *s : {"frame_of_64k_octets_or_more", "damage_beyond_64k_words", "idle_turn_after_a_frame", "reply_could_not_be_sent", "flip1", "flip2", "burst", "truncate", "extend", "header_word_flip", "class_header_encoding", "class_header_crc", "class_payload_size", "class_payload_crc", "raw_accept", "raw_tcp", "option_plcrc_without_hdcrc", "odd_payload_ws16", "payload_fault_answered_with_error_response", "classified_from_fallback_buffer"}) v.push_back(s);
-        else if (p == "C08") { for (const char *s : {"payload_of_64k_octets_or_more", "channel_attached_again_mid_session", "req_read8", "req_read16", "req_write8", "req_write16", "resp_ack_payload", "resp_ack_empty", "resp_meta", "payload_with_slip_control_octets", "varint_prefix_2_octets", "sequence_wrap", "roundtrip_accepted"}) v.push_back(s);
+        else if (p == "C08") { for (const char *s : {"payload_of_64k_octets_or_more", "emitter_sink_failed", "channel_attached_again_mid_session", "req_read8", "req_read16", "req_write8", "req_write16", "resp_ack_payload", "resp_ack_empty", "resp_meta", "payload_with_slip_control_octets", "varint_prefix_2_octets", "sequence_wrap", "roundtrip_accepted"}) v.push_back(s);
             for (int k = 1; k < 12; ++k) v.push_back("resp_code_" + std::to_string(k)); }
         else for (const char *s : {"frame_of_64k_octets_or_more", "reply_could_not_be_sent", "malloc_failed_underneath_ufw_malloc", "alloc_failure_with_parsable_header", "alloc_failure_without_parsable_header", "empty_frame", "short_frame", "frame_len_room_minus_1", "frame_len_room", "frame_len_room_plus_1", "rx_overflow", "read_at_limit_minus_1", "read_at_limit", "read_at_limit_plus_1", "tx_overflow", "channel_error_mid_frame", "odd_payload_ws16", "slab_allocator", "block_size_minimum", "served_after_fault", "illegal_slip_sequence_on_the_wire"}) v.push_back(s);
         return v;
@@ -487,6 +487,7 @@ struct RegpHarness : Harness {
                 o["n"] = (long long)n2;
                 size_t ws = (e == "req_write16" || ((e == "ack") && mt == 16)) ? 2 : 1;
                 if (e == "req_write8" || e == "req_write16" || e == "ack") o["pl"] = hexs(gen_payload(r, n2 * ws));
+                if (r.chance(1, 8)) { Json se = Json::arr(); se.push((long long)r.below(40)); se.push((long long)(r.chance(1, 4) ? 99 : r.below(13))); o["snkerr"] = se; }
                 if ((e == "req_write8" || e == "req_write16" || e == "ack") && r.chance(1, 250)) {   // 64 KiB of payload and more: regenerated from a seed
                     static const int64_t OCT[] = {65536, 65534, 65538, 65540, 70000, 131072, 131074, 196608};
                     Json bp = Json::arr(); bp.push((long long)OCT[r.below(8)]); bp.push((long long)r.below(1 << 30)); o["bigpl"] = bp; o["pl"] = "";
@@ -929,6 +930,8 @@ struct RegpHarness : Harness {
             rf.header.type = (RPFrameType)(o.geti("ftype") == T_WREQ ? T_WREQ : T_RREQ); rf.header.sequence = (uint16_t)o.geti("fseq"); rf.header.address = addr;
             size_t before = a2b.data.size();
             int rc = 0; bool fin = true;
+            const uint64_t snk_fired0 = A.snk.err_fired;
+            if (o.has("snkerr")) { A.snk.err_at = (int64_t)A.snk.calls + (o.get("snkerr").ati(0, 0) & 63); int64_t ci = o.get("snkerr").ati(1, 0); A.snk.err_code = ci == 99 ? ENODATA : HARD_ERRORS[(size_t)(ci & 15) % N_HARD_ERRORS]; }
             std::vector<uint16_t> w16(pl.size() / 2 + 1); if (pl.size() >= 2) memcpy(w16.data(), pl.data(), pl.size() & ~(size_t)1);
             if (e == "req_read8" || e == "req_read16") {
                 bool w = e == "req_read16"; uint32_t n = (uint32_t)n64;
@@ -969,6 +972,16 @@ struct RegpHarness : Harness {
             } else continue;
             c.ev(EV_API, 20, (uint64_t)(int64_t)rc, a2b.data.size()); c.ops_done++; c.execs++;
             if (!fin) { F("noprogress", "emitter did not return"); return; }
+            A.snk.err_at = -1;
+            if (A.snk.err_fired != snk_fired0) {
+                // the channel sink failed once while the frame was being sent: what is on the wire is a torn frame. An emitter that nevertheless
+                // reports success claims to have emitted a frame - and that frame is not the one the document prescribes
+                COUNT("probe.emitter_sink_failed");
+                if (rc >= 0) { F("wire", "the channel sink failed with %d while the frame was being sent (%zu octets reached the wire) and the emitter reported success (%d)", -A.snk.err_code, a2b.data.size() - before, rc); return; }
+                a2b.data.resize(before);   // the torn frame is taken off the wire again, the session goes on
+                if (e.rfind("req_", 0) == 0) expect_seq = A.p.session.sequence;   // whether a request that could not be sent uses up its number is not specified
+                continue;
+            }
             if (rc < 0) { F("result", "emitter returned %d", rc); return; }
             if (cf.serial && !want.payload.empty()) want.options |= OPT_PLCRC;
             if ((e.rfind("req_", 0) == 0) && want.seq == 0 && expect_seq == 1 && cf.seq0 != 0) COUNT("probe.sequence_wrap");
